@@ -2,6 +2,7 @@ import DelbModel.Model.XPath.Eval
 import DelbModel.Lemmas.XPathEval.DocOrder
 import DelbModel.Lemmas.XPathEval.Axes
 import DelbModel.Lemmas.XPathEval.Steps
+import DelbModel.Lemmas.XPathEval.Denote
 /-!
 # C06 helper lemmas
 
@@ -11,4 +12,6 @@ import DelbModel.Lemmas.XPathEval.Steps
   siblings) and that every axis is duplicate-free
 * `XPathEval/Steps.lean` — `filterTest`, `filterPred` / `applyPreds`, the positional predicate,
   `addNew`, `evalStep`, `evalPaths`, `insertPath` / `sortPaths`
+* `XPathEval/Denote.lean` — the mechanism model against the specification `Model/XPath/Spec.lean`
+  (axes, node tests, predicates, steps, paths, expressions; when nothing raises)
 -/
